@@ -998,6 +998,17 @@ func hasEndAnchor(re *syntax.Regexp) bool {
 	return false
 }
 
+// isBareAnchor reports whether re is the anchor op itself, possibly wrapped in
+// capture groups. Unlike hasBeginAnchor/hasEndAnchor it does not accept a group
+// that merely starts (ends) with the anchor, such as (\Ax?): there, x? sits
+// between the anchor and whatever follows the group.
+func isBareAnchor(re *syntax.Regexp, op syntax.Op) bool {
+	if re.Op == syntax.OpCapture {
+		return isBareAnchor(re.Sub[0], op)
+	}
+	return re.Op == op
+}
+
 // beginAnchoredLiteral returns the literal that immediately follows a \A anchor
 // at the start of re, or "" when the pattern is not start-anchored or something
 // other than a literal (e.g. .*) sits between the anchor and the first literal.
@@ -1006,7 +1017,7 @@ func beginAnchoredLiteral(re *syntax.Regexp, ci bool) string {
 	for re.Op == syntax.OpCapture {
 		re = re.Sub[0]
 	}
-	if re.Op != syntax.OpConcat || len(re.Sub) < 2 || !hasBeginAnchor(re.Sub[0]) {
+	if re.Op != syntax.OpConcat || len(re.Sub) < 2 || !isBareAnchor(re.Sub[0], syntax.OpBeginText) {
 		return ""
 	}
 	next := re.Sub[1]
@@ -1021,7 +1032,7 @@ func endAnchoredLiteral(re *syntax.Regexp, ci bool) string {
 	for re.Op == syntax.OpCapture {
 		re = re.Sub[0]
 	}
-	if re.Op != syntax.OpConcat || len(re.Sub) < 2 || !hasEndAnchor(re.Sub[len(re.Sub)-1]) {
+	if re.Op != syntax.OpConcat || len(re.Sub) < 2 || !isBareAnchor(re.Sub[len(re.Sub)-1], syntax.OpEndText) {
 		return ""
 	}
 	prev := re.Sub[len(re.Sub)-2]
